@@ -42,22 +42,34 @@ import (
 
 type Sess struct {
 	Kind    string `json:"kind"`    // EcdsaKeygen FrostKeygen EcdsaResharing FrostResharing EcdsaSigning FrostSigning
-	Outcome string `json:"outcome"` // NeverSilent NeverTimeout NeverCancelled StartMalformed ParamsRejected RanFailed RanSucceeded Refused
+	Outcome string `json:"outcome"` // NeverSilent NeverTimeout NeverCancelled StartMalformed ParamsRejected RanFailed RanSucceeded Refused Rerun ConstructorFails
 	Role    string `json:"role"`    // coord | peer (this relayer's role in the session)
 	// Share: the state the key-share file of the process's store is put in before the constructor
 	// runs: "" readable | missing | corrupt | unreadable
 	Share string `json:"share,omitempty"`
 	// Tweak (FROST signing): "" a valid tweak | nothex | short
 	Tweak string `json:"tweak,omitempty"`
+	// Second (outcome Rerun): what the second Run on the same object is given: "" undecodable
+	// parameters | one (a committee of one, refused inside Run) | subset (again a committee without
+	// this relayer)
+	Second string `json:"second,omitempty"`
+	// While (contention cases, kinds that ask for the lock inside Run): the session is cancelled
+	// (cancel) or hits the TSS timeout (timeout) while its Run waits for the lock
+	While string `json:"while,omitempty"`
 }
 
 type Case struct {
 	Sessions []Sess `json:"sessions"` // one = Session case, several = Sequence case
 	Real     bool   `json:"real,omitempty"`
+	// Contention: the sessions OVERLAP on one store whose Lock really blocks (conc.go): Sessions[0]
+	// holds the lock while the others ask for it
+	Contention bool `json:"contention,omitempty"`
 }
 
 type Obs struct {
 	Ledger []string `json:"ledger"`
+	// contention cases: Ledger[i] belongs to session Threads[i]
+	Threads []int `json:"threads,omitempty"`
 	Real   int      `json:"real"` // 0 not replayed, 1 completed + lock free, 2 fatal unlock, 3 lock not free (a constructor or the final probe blocked)
 	Note   string   `json:"note,omitempty"`
 }
@@ -228,17 +240,23 @@ func (p *party) answerInitiate(on bool) {
 type wrapped struct {
 	tss.TssProcess
 	led *tssfakes.Ledger
+	tag string
 }
 
 func (w *wrapped) Run(ctx context.Context, coordinator bool, resultChn chan interface{}, params []byte) error {
-	w.led.Add(tssfakes.Event{Kind: "RunBegin"})
-	defer w.led.Add(tssfakes.Event{Kind: "RunEnd"})
+	w.led.Add(tssfakes.Event{Kind: "RunBegin", SID: w.tag})
+	defer w.led.Add(tssfakes.Event{Kind: "RunEnd", SID: w.tag})
 	return w.TssProcess.Run(ctx, coordinator, resultChn, params)
 }
 
 const tweak = "c82aa6ae534bb28aaafeb3660c31d6a52e187d8f05d48bb6bdb9b733a9b42212"
 
 func (p *party) mk(kind, sid string, threshold int, tweaks ...string) (tss.TssProcess, error) {
+	return p.mkWith(p.es, p.fs, "", kind, sid, threshold, tweaks...)
+}
+
+// mkWith: the real constructor of `kind` on the given stores; tag marks the process's ledger entries.
+func (p *party) mkWith(es ecdsaStore, fs frostStore, tag, kind, sid string, threshold int, tweaks ...string) (tss.TssProcess, error) {
 	tweak := tweak
 	if len(tweaks) > 0 {
 		switch tweaks[0] {
@@ -252,20 +270,20 @@ func (p *party) mk(kind, sid string, threshold int, tweaks ...string) (tss.TssPr
 	var err error
 	switch kind {
 	case "EcdsaKeygen":
-		proc = ekeygen.NewKeygen(sid, threshold, p.host, p.comm, p.es)
+		proc = ekeygen.NewKeygen(sid, threshold, p.host, p.comm, es)
 	case "FrostKeygen":
-		proc = fkeygen.NewKeygen(sid, threshold, p.host, p.comm, p.fs)
+		proc = fkeygen.NewKeygen(sid, threshold, p.host, p.comm, fs)
 	case "EcdsaResharing":
-		proc = eresharing.NewResharing(sid, threshold, p.host, p.comm, p.es)
+		proc = eresharing.NewResharing(sid, threshold, p.host, p.comm, es)
 	case "FrostResharing":
-		proc = fresharing.NewResharing(sid, threshold, p.host, p.comm, p.fs)
+		proc = fresharing.NewResharing(sid, threshold, p.host, p.comm, fs)
 	case "EcdsaSigning":
 		var s *esigning.Signing
-		s, err = esigning.NewSigning(big.NewInt(0x1234567), "m"+sid, sid, p.host, p.comm, p.es)
+		s, err = esigning.NewSigning(big.NewInt(0x1234567), "m"+sid, sid, p.host, p.comm, es)
 		proc = s
 	case "FrostSigning":
 		var s *fsigning.Signing
-		s, err = fsigning.NewSigning(1, []byte("Message"), tweak, "m"+sid, sid, p.host, p.comm, p.fs)
+		s, err = fsigning.NewSigning(1, []byte("Message"), tweak, "m"+sid, sid, p.host, p.comm, fs)
 		proc = s
 	default:
 		panic("kind " + kind)
@@ -273,7 +291,7 @@ func (p *party) mk(kind, sid string, threshold int, tweaks ...string) (tss.TssPr
 	if err != nil {
 		return nil, err
 	}
-	return &wrapped{TssProcess: proc, led: p.led}, nil
+	return &wrapped{TssProcess: proc, led: p.led, tag: tag}, nil
 }
 
 func runMsgType(kind string) comm.MessageType {
@@ -321,6 +339,35 @@ func goodParams(kind string, coordinator peer.ID) []byte {
 		return b
 	}
 	return []byte{}
+}
+
+// othersParams: a signing committee that does not contain this relayer.
+func othersParams() []byte {
+	b, _ := json.Marshal([]peer.ID{ids[1], ids[2]})
+	return b
+}
+
+// secondParams: the parameters of the second start message of a Rerun session.
+func secondParams(second string) []byte {
+	switch second {
+	case "one":
+		b, _ := json.Marshal([]peer.ID{ids[0]})
+		return b
+	case "subset":
+		return othersParams()
+	}
+	return []byte("x")
+}
+
+// startSubscriptions: how often Execute has subscribed to the start messages of the session so far.
+func (p *party) startSubscriptions(sid string) int {
+	n := 0
+	for _, e := range p.led.Snapshot() {
+		if e.Kind == "Sub" && e.SID == sid && e.Msg == comm.TssStartMsg {
+			n++
+		}
+	}
+	return n
 }
 
 func badParams(kind string) []byte {
@@ -457,6 +504,15 @@ func (p *party) session(s Sess) string {
 			}
 			deliverStart(startMsg(params))
 		}
+	case "Rerun":
+		// first start message: a committee without this relayer -> Run returns SubsetError ->
+		// Coordinator.handleError waits for the next start message (from anybody) and calls Run again
+		// on the SAME process object
+		deliverStart(startMsg(othersParams()))
+		tssfakes.WaitP("Execute to wait for the second start message", func() bool {
+			return p.startSubscriptions(sid) >= 2 && p.comm.Subscribers(sid, comm.TssStartMsg) >= 1
+		})
+		p.comm.Deliver(sid, comm.TssStartMsg, ids[1], startMsg(secondParams(s.Second)))
 	}
 	if _, ok := tssfakes.RecvP("Execute to return", done); !ok {
 		note += "Execute did not return; "
@@ -594,6 +650,14 @@ func run(c Case) Obs {
 	if len(c.Sessions) == 1 && c.Sessions[0].Outcome == "RanSucceeded" {
 		return succeedFuture(c.Sessions[0].Kind)
 	}
+	if c.Contention {
+		futMu.Lock()
+		for _, k := range prefetch {
+			startFuture(k)
+		}
+		futMu.Unlock()
+		return runContention(c)
+	}
 	p := newParty(0, nil, false)
 	defer p.cleanup()
 	for _, s := range c.Sessions {
@@ -685,13 +749,15 @@ func child(js string) {
 // ---- generation / printing -----------------------------------------------------------------------
 
 var kinds = []string{"EcdsaKeygen", "FrostKeygen", "EcdsaResharing", "FrostResharing", "EcdsaSigning", "FrostSigning"}
-var cheap = []string{"NeverSilent", "NeverTimeout", "NeverCancelled", "StartMalformed", "ParamsRejected", "RanFailed", "Refused"}
+var cheap = []string{"NeverSilent", "NeverTimeout", "NeverCancelled", "StartMalformed", "ParamsRejected", "RanFailed", "Refused", "Rerun"}
 var badShares = []string{"missing", "corrupt", "unreadable"}
+var seconds = []string{"", "one", "subset"}
 
 func signing(kind string) bool { return kind == "EcdsaSigning" || kind == "FrostSigning" }
 
 func feasible(kind, outcome string) bool {
-	if outcome == "ConstructorFails" {
+	if outcome == "ConstructorFails" || outcome == "Rerun" {
+		// (only the signing kinds are Retryable: tss.Coordinator runs nothing else a second time)
 		return signing(kind)
 	}
 	return !(outcome == "ParamsRejected" && (kind == "EcdsaKeygen" || kind == "FrostKeygen"))
@@ -724,7 +790,7 @@ func roles(kind, outcome string) []string {
 		return []string{"peer"} // as coordinator a signing process computes a valid committee itself
 	}
 	switch outcome {
-	case "NeverSilent", "StartMalformed", "ParamsRejected":
+	case "NeverSilent", "StartMalformed", "ParamsRejected", "Rerun":
 		return []string{"peer"}
 	case "RanFailed":
 		return []string{"peer", "coord"}
@@ -755,6 +821,14 @@ func gen(r *vgen.Rng, tier string) []Case {
 				}
 				out = append(out, Case{Sessions: []Sess{{Kind: k, Outcome: oc, Role: "coord"}}})
 				prefetch = append(prefetch, k)
+				continue
+			}
+			if oc == "Rerun" {
+				// retried attempts: Run twice on the same object, the second time with undecodable
+				// parameters / a committee the library refuses / again a committee without this relayer
+				for _, sec := range seconds {
+					out = append(out, Case{Sessions: []Sess{{Kind: k, Outcome: oc, Role: "peer", Second: sec}}, Real: sec == ""})
+				}
 				continue
 			}
 			for _, role := range roles(k, oc) {
@@ -788,6 +862,9 @@ func gen(r *vgen.Rng, tier string) []Case {
 	for _, tw := range []string{"nothex", "short"} {
 		out = append(out, Case{Sessions: []Sess{{Kind: "FrostSigning", Outcome: "ConstructorFails", Role: "coord", Tweak: tw}}, Real: true})
 	}
+	// sessions that overlap on one store whose Lock really blocks (conc.go); they come first and the
+	// slow complete runs are started in the background when the first of them is reached
+	out = append(genContention(r, tier), out...)
 	nseq := 40
 	if tier == "thorough" {
 		nseq = 600
@@ -806,7 +883,11 @@ func gen(r *vgen.Rng, tier string) []Case {
 			if !feasible(k, oc) || slow(k, oc) {
 				continue
 			}
-			ss = append(ss, Sess{Kind: k, Outcome: oc, Role: vgen.Pick(r, rolesIn(k, oc, sh)), Share: sh})
+			sec := ""
+			if oc == "Rerun" {
+				sec = vgen.Pick(r, seconds)
+			}
+			ss = append(ss, Sess{Kind: k, Outcome: oc, Role: vgen.Pick(r, rolesIn(k, oc, sh)), Share: sh, Second: sec})
 		}
 		// every fifth sequence is replayed on the real stores
 		out = append(out, Case{Sessions: ss, Real: i%5 == 0})
@@ -834,6 +915,24 @@ func coq(c Case, o Obs) string {
 		led = "[L; U; L; U; L; U; L; U; L; U]"
 		o.Real = 0
 	}
+	if c.Contention {
+		type te struct {
+			t int
+			e string
+		}
+		var tr []te
+		for i, e := range o.Ledger {
+			tr = append(tr, te{o.Threads[i], e})
+		}
+		if o.Note != "" {
+			// the harness could not drive the sessions as asked: an empty ledger passes the judge and
+			// differs from the model (the holder's session alone has events) - a broken correspondence
+			tr = nil
+			o.Real = 0
+		}
+		return "Contention " + vgen.ListOf(c.Sessions, func(s Sess) string { return vgen.Pair(s.Kind, s.Outcome) }) + " " +
+			vgen.ListOf(tr, func(x te) string { return vgen.Pair(vgen.Nat(x.t), x.e) }) + " " + vgen.Nat(o.Real)
+	}
 	if len(c.Sessions) == 1 {
 		s := c.Sessions[0]
 		return "Session " + s.Kind + " " + s.Outcome + " " + shareName(s.Share) + " " + led + " " + vgen.Nat(o.Real)
@@ -852,7 +951,13 @@ func kindOf(c Case) string {
 		if c.Sessions[0].Tweak != "" {
 			k += "/tweak-" + c.Sessions[0].Tweak
 		}
+		if c.Sessions[0].Second != "" {
+			k += "/second-" + c.Sessions[0].Second
+		}
 		return k
+	}
+	if c.Contention {
+		return "contention/" + c.Sessions[0].Kind
 	}
 	for _, s := range c.Sessions {
 		if s.Share != "" {
@@ -881,6 +986,6 @@ func main() {
 		Coq:        coq,
 		Kind:       kindOf,
 		NonTrivial: func(c Case, o Obs) bool { return len(o.Ledger) > 0 || len(c.Sessions) > 0 },
-		Rule:       "every process kind x every feasible outcome x the roles in which it can arise, each on a fresh counting store (half of them replayed on the real sync.Mutex store in a child process); every kind x {missing, corrupt, unreadable key-share file}: the signing constructors fail, keygen/resharing sessions take their usual courses; FROST signing with undecodable tweaks; random sequences of 2..7 sessions on one store, a third of the sessions on an unreadable share file, every fifth sequence replayed on the real stores; distinct = distinct input JSON; every case is non-trivial (a real constructor and the real Execute run in each)",
+		Rule:       "every process kind x every feasible outcome x the roles in which it can arise, each on a fresh counting store (half of them replayed on the real sync.Mutex store in a child process); every kind x {missing, corrupt, unreadable key-share file}: the signing constructors fail, keygen/resharing sessions take their usual courses; FROST signing with undecodable tweaks; random sequences of 2..7 sessions on one store, a third of the sessions on an unreadable share file, every fifth sequence replayed on the real stores; retried attempts (Run twice on the same signing object through Coordinator.handleError, three kinds of second start message); contention: a constructor-locking holder x 1..4 overlapping sessions of the kinds on its store (cancelled / timed out while waiting inside Run, waiting in their constructors, refused, retried) on a store whose Lock blocks, merged ledger with one tag per session; distinct = distinct input JSON; every case is non-trivial (a real constructor and the real Execute run in each)",
 	})
 }
